@@ -6,6 +6,13 @@ from . import harness as H, core, engine
 
 def main(path):
     c = json.load(open(path))
+    if c.get('kind') == 'ground' or not c.get('wrappers'):
+        print('property   :', c.get('property'))
+        print('obligation :', c.get('obligation'))
+        print('statement  :', c.get('statement'))
+        print('observed   :', c.get('observed'))
+        print('(a ground fact about the tables / declarations of the current tree; re-run the check to re-evaluate it)')
+        return 1
     work = H.scratch_dir()
     ws = [H.Wrapper(d['name'], d['in_ty'], d['n_in'], d['out_ty'], d['n_out'], d['body'], d['n_iout'], None, d.get('n_iin', 0)) for d in c['wrappers']]
     u = H.Unit(work, 'replay', c['includes'], ws, c.get('extra_src', ''))
